@@ -1,8 +1,11 @@
 #!/bin/bash
 # seedrun.sh <patch> <check ids...>: apply a seeded change to /repo, run the checks, undo it.
+# Evidence files written while the change is applied are NOT kept (evidence/ is restored).
 PATCH=$1; shift
+SAVE=$(mktemp -d)
+cp -a /verif/evidence/. $SAVE/ 2>/dev/null
 git -C /repo apply "$PATCH" || { echo "patch does not apply"; exit 2; }
-trap 'git -C /repo checkout -- . ; git -C /repo status --short | grep -v "^??" | head -3' EXIT
+trap 'git -C /repo checkout -- . ; git -C /repo status --short | grep -v "^??" | head -3; cp -a $SAVE/. /verif/evidence/; rm -rf $SAVE' EXIT
 cd /verif
 for id in "$@"; do
   ./check $id 2>&1 | grep -v "^KNOWN-FINDING" | tail -2 | cut -c1-300
